@@ -136,7 +136,7 @@ def rand_answers(iver, all_metrics, rng, p_bad=0.15, p_eof=0.1, complete=None):
         if v == V["nd"] and r < 0.5:
             txt = rng.choice(["", " ", "\t"])
         elif r < 0.7:
-            txt = rng.choice([v.lower(), v.upper(), " " + v, v + " ", v.swapcase()])
+            txt = rng.choice([v.lower(), v.upper(), " " + v, v + " ", v.swapcase(), "\x1c" + v, v + "\x1f\t", "\x0b" + v.lower()])
         ans.append(txt)
         expect.append((m, v))
     if complete is False or (complete is None and rng.random() < p_eof):
